@@ -271,6 +271,24 @@ def oracles(ctx, deep):
                     # the exit test is mean(sqrt|re <r,r>|, sqrt|im <r,r>|) = ||r|| / 2 < tol
                     if rs > 2 * tol * 1.5 + 1e-4 * float(rhs.norm()) and float(r0) > 4 * tol:
                         add(Violation("cg-tolerance-exit", "ConjGrad (%s, tol %g) returns an iterate with residual %.3g (start %.3g) for %s, lambda %s: the step that met the tolerance is missing" % (rule, tol, rs, float(r0), cfg, float(lam)), {"config": cfg, "rule": rule, "lambda": float(lam), "tol": tol}, {"fn": "cg-exit", "rule": rule}))
+                # several systems at once (different intensity scales): each sample must get the solution of its own system
+                if rng.random() < 0.5 and h * w <= 64:
+                    nb = rng.randint(2, 3)
+                    sc_b = torch.tensor([rng.choice([1.0, 30.0, 0.05]) for _ in range(nb)]).view(nb, 1, 1, 1, 1)
+                    yb = torch.randn(nb, C, h, w, 2, generator=g) * sc_b
+                    Sb = S.expand(nb, -1, -1, -1, -1).clone()
+                    mb = mask.expand(nb, -1, -1, -1, -1).clone()
+                    zb = torch.randn(nb, h, w, 2, generator=g) * sc_b[:, 0]
+                    ymb = torch.where(mb == 0, torch.zeros(1), yb)
+                    # a few iterations only and no tolerance exit: the k-th iterate of a sample is the k-th iterate of its
+                    # own system (the update coefficients are per sample), whatever else is in the batch
+                    cgb = ConjGrad(fwd, bwd, num_iters=min(12, h * w // 2 + 2), tol=0.0, bk_update_type=rule)
+                    solb = cgb(ymb, Sb, mb, zb, lam)
+                    for i in range(nb):
+                        soli = cgb(ymb[i : i + 1], Sb[i : i + 1], mb[i : i + 1], zb[i : i + 1], lam)
+                        sci = max(1e-6, float(soli.abs().max()))
+                        if not torch.allclose(solb[i : i + 1], soli, atol=1e-3 * sci, rtol=1e-3):
+                            add(Violation("cg-batched", "ConjGrad (%s) on a batch of %d systems: sample %d differs from its own solution by %.3g (scale %.3g) for %s, lambda %s" % (rule, nb, i, float((solb[i : i + 1] - soli).abs().max()), sci, cfg, float(lam)), {"config": cfg, "rule": rule, "lambda": float(lam), "batch": nb, "scales": sc_b.flatten().tolist()}, {"fn": "cg-batched", "rule": rule}))
                 if not torch.allclose(Bm, Bm.T, atol=1e-4 * max(1.0, float(Bm.abs().max()))):
                     add(Violation("b-self-adjoint", "B = A*A + lambda I is not symmetric for %s" % cfg, {"config": cfg}, {"fn": "B_op"}))
         except Exception as e:  # noqa
